@@ -13,8 +13,10 @@
    returns its context's error conveys that classification.
 
    Assumed of the environment after the cancellation ([op_ok]): the transport's
-   Do fails with the context's error or returns a response that passes
-   validation — it does not fail for an unrelated reason at that very moment.
+   Do fails — with WHATEVER error that is not a coded *connect.Error of another
+   code (the context's error, its cause, a closed connection: makeRequest asks the
+   context, repaired in /repo 8b9fc14) — or returns a response that passes
+   validation.
 
    NOT exhibited by the model (named): that net/http notices the cancellation
    (wakes a blocked body read, resets the HTTP/2 stream, closes the HTTP/1.1
@@ -28,13 +30,13 @@ Import ListNotations.
 Theorem context_errors_classified : forall k,
   wrap_ctx (CtxErr k) = Coded (ctx_code k) /\
   wrap_uncoded (CtxErr k) = Coded (ctx_code k) /\
-  wrap_do_error (CtxErr k) = Coded (ctx_code k) /\
+  (forall c, wrap_do_error c (CtxErr k) = Coded (ctx_code k)) /\
   wrap_uncoded (wrap_ctx (CtxErr k)) = Coded (ctx_code k).
 Proof. exact classification_lemma. Qed.
 Print Assumptions context_errors_classified.
 
 Theorem coded_errors_kept : forall c,
-  wrap_ctx (Coded c) = Coded c /\ wrap_uncoded (Coded c) = Coded c /\ wrap_do_error (Coded c) = Coded c.
+  wrap_ctx (Coded c) = Coded c /\ wrap_uncoded (Coded c) = Coded c /\ (forall x, wrap_do_error x (Coded c) = Coded c).
 Proof. exact wrap_preserves_coded. Qed.
 Print Assumptions coded_errors_kept.
 
@@ -115,3 +117,13 @@ Example unary_cancel_after_message :
   unary_outcome bytes (grpc_on_special VMalformed) (grpc_on_eof VMalformed) (grpc_on_error VMalformed)
     [UMsg [x6f; x6b]; UErr (RErr 1); UErr (RErr 1)] = UFail 1.
 Proof. reflexivity. Qed.
+
+(* once the context has ended, whatever uncoded error the transport's Do returns — the
+   context's own, its cause (WithCancelCause), "use of closed network connection" — is
+   recorded as the context's code *)
+Theorem do_error_after_context_end_is_the_contexts : forall k,
+  wrap_do_error (Some k) Plain = Coded (ctx_code k) /\
+  wrap_do_error (Some k) EOFv = Coded (ctx_code k) /\
+  (forall k', wrap_do_error (Some k) (CtxErr k') = Coded (ctx_code k')).
+Proof. intro k. repeat split; reflexivity. Qed.
+Print Assumptions do_error_after_context_end_is_the_contexts.
